@@ -8,13 +8,15 @@ open Squeeth Gen
 
 /-- one operation — any operation of the model, any arguments (negative, oversized, unknown keys), accepted or
     rejected — keeps every vault's collateral and debt, every wallet balance and every pending amount ≥ 0.
-    The only thing asked of the market data is a non-negative oSQTH TWAP. -/
-theorem C14_amounts_never_negative (e : Env) (s : State) (op : Op) (hp : 0 ≤ twap e .osqth) (h : Inv s) :
-    Inv (step NumCtx.exact e s op).st := by
+    The only thing asked of the market data is a non-negative oSQTH TWAP — and, when the operation is a trade of the long
+    side (`buy_squeeth` / `sell_squeeth`), a non-negative pool price and a pool fee rate ≤ 1 (`PoolOk`; nothing is asked of the
+    pool for any other operation). -/
+theorem C14_amounts_never_negative (e : Env) (s : State) (op : Op) (hp : 0 ≤ twap e .osqth)
+    (hq : op.isTrade = true → PoolOk e) (h : Inv s) : Inv (step NumCtx.exact e s op).st := by
   unfold step
   split
-  · exact atomic_inv _ _ h (stepBody_inv e s op hp h)
-  · exact stepBody_inv e s op hp h
+  · exact atomic_inv _ _ h (stepBody_inv e s op hp hq h)
+  · exact stepBody_inv e s op hp hq h
 
 namespace Squeeth
 /-- run a history: each step has its own market data (a price / norm-factor path) and one operation -/
@@ -25,20 +27,22 @@ end Squeeth
 
 /-- … and so does every sequence of operations along every price / norm-factor path -/
 theorem C14_amounts_never_negative_along_paths (s : State) (hist : List (Env × Op))
-    (hp : ∀ eo ∈ hist, 0 ≤ twap eo.1 .osqth) (h : Inv s) : Inv (runOps NumCtx.exact s hist) := by
+    (hp : ∀ eo ∈ hist, 0 ≤ twap eo.1 .osqth) (hq : ∀ eo ∈ hist, eo.2.isTrade = true → PoolOk eo.1) (h : Inv s) :
+    Inv (runOps NumCtx.exact s hist) := by
   induction hist generalizing s with
   | nil => exact h
   | cons eo rest ih =>
     obtain ⟨e, op⟩ := eo
     unfold runOps
-    exact ih _ (fun x hx => hp x (List.mem_cons_of_mem _ hx))
-      (C14_amounts_never_negative e s op (hp (e, op) (by simp)) h)
+    exact ih _ (fun x hx => hp x (List.mem_cons_of_mem _ hx)) (fun x hx => hq x (List.mem_cons_of_mem _ hx))
+      (C14_amounts_never_negative e s op (hp (e, op) (by simp)) (hq (e, op) (by simp)) h)
 
 /-- in particular: every vault of every reachable state has `collateral ≥ 0` and `debt ≥ 0` -/
 theorem C14_vault_amounts_nonneg (s : State) (hist : List (Env × Op)) (hp : ∀ eo ∈ hist, 0 ≤ twap eo.1 .osqth)
+    (hq : ∀ eo ∈ hist, eo.2.isTrade = true → PoolOk eo.1)
     (h : Inv s) (vk : Nat) (v : Vault) (hv : AList.get? (runOps NumCtx.exact s hist).vaults vk = some v) :
     0 ≤ v.coll ∧ 0 ≤ v.short :=
-  (C14_amounts_never_negative_along_paths s hist hp h).vault hv
+  (C14_amounts_never_negative_along_paths s hist hp hq h).vault hv
 
 /-! ### non-vacuity -/
 example : Inv { wallet := [("WETH", 100), ("OSQTH", 0)], vaults := [(1, { coll := 3, short := 10, nft := none })], maxId := 1,
